@@ -1,6 +1,8 @@
 # throw-away feasibility prototype: concrete-control / symbolic-data interpreter for clang-14 textual IR
 import re, sys, time, z3
 
+class BackEdge(Exception):
+    def __init__(s,env): s.env=env
 class Ptr:
     __slots__=('obj','off')
     def __init__(s,obj,off): s.obj=obj; s.off=off
@@ -328,6 +330,11 @@ class Interp:
                     if mm.group(2)==prev: newv[m.group(1)]=s.operand(env,t,mm.group(1)); break
                 else: raise Exception('phi pred? '+l)
             env.update(newv)
+            cut=getattr(s,'cut',None)
+            if cut and cut['fn']==fname and cur==cut['header']:
+                cut['visits']=cut.get('visits',0)+1
+                if cut['visits']==1: env.update(cut['on_enter'](s,env))
+                else: raise BackEdge(dict(env))
             for l in blk:
                 if ' = phi ' in l: continue
                 s.steps+=1
